@@ -9,8 +9,9 @@ Op lines (decimal integers; names / file names / md5 are integers, the adapter m
   sigfile <gz> <sessions>
   sbt <list>                      lca <ksize> <mol> <scaled> <maxhash> <list>
   members | manifest | len
+  rebuild                         (zip) the manifest `get_manifest(idx, rebuild=True)` builds (= `sourmash sig manifest`)
   locs                            (SBT) number of manifest rows, number of distinct locations
-  load generic|standalone|pathlist|directory
+  load generic|standalone|standalone-sql|pathlist|directory
   kind <file kind>                which registered loaders accept a real file of that kind, and who wins
   conv <x>                        convert_hash_to(x), convert_hash_from(convert_hash_to(x))
 
@@ -130,15 +131,23 @@ def gen_case(rng, flavour):
                 sessions[0].append(a)
         lines.append("zip " + sess_str(sessions))
         lines += ["members", "manifest", "len"]
+        if rng.random() < 0.5:
+            lines.append("rebuild")
+        if rng.random() < 0.4:
+            ways.append("standalone-sql")
     elif flavour in ("sqldb", "sqlseed"):
         sessions = gen_sessions(rng, n, rng.choice([1, 2, 3]))
         lines.append("sqldb " + sess_str(sessions))
         lines += ["manifest", "len"]
+        if rng.random() < 0.3:
+            ways.append("standalone-sql")
     elif flavour == "dir":
         sessions = gen_sessions(rng, n, rng.choice([1, 2]))
         lines.append("dir " + sess_str(sessions))
         lines += ["members", "manifest", "len"]
         ways.append("directory")
+        if rng.random() < 0.3:
+            ways.append("standalone-sql")
     elif flavour == "sigfile":
         sessions = gen_sessions(rng, n, 1)
         lines.append(f"sigfile {rng.randrange(2)} " + sess_str(sessions))
@@ -345,6 +354,9 @@ def oracle(case, impl):
             else:
                 coll.sessions = parse_sessions(w[1])
             ref = parse_refused(out)
+            if out == "bad-op":
+                coll = None
+                continue
             if ref is None:
                 bad.append((k, f"C10:save-failed:{coll.fmt}", f"saving raised: `{op}` -> {out}"))
                 coll = None
@@ -419,6 +431,31 @@ def oracle(case, impl):
                         bad.append((k, f"C10:exact-duplicate-collapsed:{fmt}",
                                     msg + " (the same signature saved twice is one member, two rows)"))
             continue
+        if w[0] == "rebuild":
+            it = items_of(out)
+            if it is None or out == "ok -":
+                if out != "ok -":
+                    bad.append((k, f"C10:manifest-unreadable:{fmt}:rebuild", f"manifest could not be rebuilt: {out}"))
+                continue
+            rows = []
+            for r in it:
+                f = r.split("|")
+                rows.append((f[0],) + tuple(int(x) if x.lstrip('-').isdigit() else x for x in f[1:]))
+            # a rebuilt manifest describes the members: one row per stored signature, exact duplicates once
+            want = Counter(set(row_of(s) for s in expected)) if fmt == "zip" else Counter(row_of(s) for s in expected)
+            got = Counter(r[1:] for r in rows)
+            if want != got:
+                miss = list((want - got).elements())
+                extra = list((got - want).elements())
+                md5s_kept = {r[1] for r in rows}
+                if fmt == "zip" and not extra and miss and all(m[0] in md5s_kept for m in miss):
+                    bad.append((k, "C10:zip-rebuilt-manifest-skips-suffixed-members",
+                                f"the manifest rebuilt from the zip (sig manifest) lacks {miss[:2]}: members named "
+                                "<md5>.sig.gz_<n> (same md5 as an earlier member) do not end in .sig/.sig.gz and are never opened"))
+                else:
+                    bad.append((k, f"C10:manifest-columns:{fmt}:rebuild",
+                                f"rebuilt manifest differs from the stored signatures: missing {miss[:2]} unexpected {extra[:2]}"))
+            continue
         if w[0] == "len":
             continue            # judged together with the load below
         if w[0] == "load":
@@ -447,7 +484,7 @@ def oracle(case, impl):
                                          f"{[key3(s) if len(s) == 10 else s for s in (want - got).elements()][:2]} unexpected "
                                          f"{[key3(s) if len(s) == 10 else s for s in (got - want).elements()][:2]}"))
             # len() of the collection, observed earlier in the case
-            for kk in range(k - 1, -1, -1):
+            for kk in (range(k - 1, -1, -1) if w[1] == "generic" else []):
                 if case[kk].split()[0] == "len":
                     lo = impl[kk]
                     if lo.startswith("ok ") and lo[3:].isdigit() and int(lo[3:]) != len(loaded):
@@ -494,6 +531,18 @@ def classify_loss(k, coll, sigs, expected, loaded, msg):
     want, got = Counter(expected), Counter(loaded)
     miss = want - got
     extra = got - want
+    if "(standalone-sql)" in msg and not extra and miss:
+        kept_md5 = {s[MD5] for s in loaded}
+        gone = [s for s in miss if got[s] == 0]
+        fewer = [s for s in miss if got[s] > 0]
+        if all(s[MD5] in kept_md5 for s in gone):
+            if gone:
+                return (k, "C10:sql-manifest-drops-same-md5-rows",
+                        msg + " (a SQLite-format manifest keeps one row per (location, md5): UNIQUE + INSERT OR IGNORE; "
+                              "other signatures with that md5 in the same collection are not listed and not returned)")
+            if fewer and fmt in ("zip", "sbt"):
+                return (k, f"C10:exact-duplicate-collapsed:{fmt}",
+                        msg + " (the same signature saved twice is returned once; the manifest lists it twice)")
     if fmt == "sqldb":
         noseed = lambda s: s[:SEED] + (42,) + s[SEED + 1:]
         if Counter(noseed(s) for s in expected) == Counter(noseed(s) for s in loaded):
